@@ -27,7 +27,6 @@ pub tracked struct World {
     pub ghost effects: Seq<int>,     // Core.requests, by value identity
     pub ghost applied: Seq<int>,     // log: events handed to App::update, in order
     pub ghost model_locked: bool,    // a write guard on the model exists
-    pub ghost sequential: bool,      // no other thread is polling a task (C08 is not claimed)
     // ---- one command's queues
     pub ghost c_spawn: nat,
     pub ghost c_ready: nat,
@@ -45,7 +44,7 @@ pub enum Role { Spawn, Ready, Events, Effects, CSpawn, CReady, CEvents, CEffects
 
 pub open spec fn core_part_eq(a: World, b: World) -> bool {
     a.spawn == b.spawn && a.ready == b.ready && a.events == b.events && a.effects == b.effects
-    && a.applied == b.applied && a.model_locked == b.model_locked && a.sequential == b.sequential
+    && a.applied == b.applied && a.model_locked == b.model_locked
 }
 pub open spec fn cmd_part_eq(a: World, b: World) -> bool {
     a.c_spawn == b.c_spawn && a.c_ready == b.c_ready && a.c_events == b.c_events && a.c_effects == b.c_effects
@@ -54,7 +53,7 @@ pub open spec fn cmd_part_eq(a: World, b: World) -> bool {
 /// what anything that runs user code may do to the core's queues: add work, append outputs
 pub open spec fn core_havoc_min(a: World, b: World) -> bool {
     a.events.is_prefix_of(b.events) && a.effects.is_prefix_of(b.effects)
-    && a.applied == b.applied && a.model_locked == b.model_locked && a.sequential == b.sequential
+    && a.applied == b.applied && a.model_locked == b.model_locked
 }
 /// every event applied so far followed by every event still waiting, in order. If the queue is
 /// FIFO and each dequeued event is applied exactly once before the next is dequeued, this
@@ -186,20 +185,54 @@ pub mod crossbeam_channel {
 }
 use crossbeam_channel::{Receiver, Sender};
 
-// ================================================================== X4/X5: locks, slab, opaque futures
-/// futures::future::BoxFuture<'static, ()>
-#[verifier::external_body]
-pub struct BoxFuture { _p: u8 }
-
+// ================================================================== X4/X5: locks, slab, opaque std/futures types
+/// assumed: slab 0.4.9 as a partial map (same contracts as unit R). insert picks a vacant key;
+/// remove frees exactly that key and panics on a vacant one; get_mut lends exactly the addressed
+/// entry. ASSUMED in addition: fewer than 2^32 entries are alive, so keys fit u32 (the executor
+/// panics explicitly otherwise: "TaskId overflow").
 #[verifier::external_body]
 #[verifier::accept_recursive_types(T)]
 pub struct Slab<T> { _p: core::marker::PhantomData<T> }
-#[verifier::external_body]
-#[verifier::accept_recursive_types(T)]
-pub struct Mutex<T> { _p: core::marker::PhantomData<T> }
-#[verifier::external_body]
-#[verifier::accept_recursive_types(T)]
-pub struct MutexGuard<T> { _p: core::marker::PhantomData<T> }
+impl<T> View for Slab<T> {
+    type V = Map<usize, T>;
+    uninterp spec fn view(&self) -> Map<usize, T>;
+}
+impl<T> Slab<T> {
+    #[verifier::external_body]
+    pub fn insert(&mut self, val: T) -> (key: usize)
+        ensures
+            !old(self)@.dom().contains(key),
+            final(self)@ == old(self)@.insert(key, val),
+            key <= u32::MAX,
+    { unimplemented!() }
+    #[verifier::external_body]
+    pub fn remove(&mut self, key: usize) -> (val: T)
+        requires old(self)@.dom().contains(key), // slab panics with "invalid key" otherwise
+        ensures
+            final(self)@ == old(self)@.remove(key),
+            val == old(self)@[key],
+    { unimplemented!() }
+    #[verifier::external_body]
+    pub fn get_mut(&mut self, key: usize) -> (r: Option<&mut T>)
+        ensures
+            r is Some <==> old(self)@.dom().contains(key),
+            r is Some ==> *(r->0) == old(self)@[key] && final(self)@ == old(self)@.insert(key, *final(r->0)),
+            r is None ==> final(self)@ == old(self)@,
+    { unimplemented!() }
+    #[verifier::external_body]
+    pub fn clear(&mut self)
+        ensures final(self)@ == Map::<usize, T>::empty(),
+    { unimplemented!() }
+    #[verifier::external_body]
+    pub fn is_empty(&self) -> (r: bool)
+        ensures r <==> self@.dom() =~= Set::<usize>::empty(),
+    { unimplemented!() }
+}
+
+/// X4: std::sync::Mutex seen sequentially is the protected value; `lock().expect(..)` /
+/// `lock().unwrap()` are rewritten to `(&mut self.tasks.inner)` and `&self` to `&mut self`.
+pub struct Mutex<T> { pub inner: T }
+
 #[verifier::external_body]
 #[verifier::accept_recursive_types(T)]
 pub struct PoisonError<T> { _p: core::marker::PhantomData<T> }
@@ -207,19 +240,73 @@ impl<T> core::fmt::Debug for PoisonError<T> {
     #[verifier::external_body]
     fn fmt(&self, f: &mut core::fmt::Formatter<'_>) -> core::fmt::Result { unimplemented!() }
 }
-impl<T> Mutex<T> {
-    // ASSUMED: not poisoned (a poisoned lock panics explicitly in the code under proof)
+
+/// std::mem::drop (of a lock guard that rule X4 turned into a `&mut`, or of a Task)
+#[verifier::external_body]
+pub fn drop<T>(t: T)
+{ unimplemented!() }
+
+// vstd has no specification for Option::replace; std's documented behaviour (ASSUMED)
+pub assume_specification<T> [core::option::Option::<T>::replace] (o: &mut Option<T>, v: T) -> (r: Option<T>)
+    ensures r == *old(o), *final(o) == Some(v);
+
+/// futures::future::BoxFuture<'static, ()> = Pin<Box<dyn Future<Output = ()> + Send>>
+#[verifier::external_body]
+pub struct BoxFuture { _p: u8 }
+/// Pin<&mut (dyn Future<Output = ()> + Send)>
+#[verifier::external_body]
+pub struct PinMutFuture<'a> { _p: core::marker::PhantomData<&'a mut BoxFuture> }
+#[verifier::external_body]
+pub struct Waker { _p: u8 }
+#[verifier::external_body]
+pub struct Context<'a> { _p: core::marker::PhantomData<&'a Waker> }
+#[verifier::external_body]
+#[verifier::accept_recursive_types(T)]
+pub struct Arc<T> { _p: core::marker::PhantomData<T> }
+/// std::task::Poll
+pub enum Poll<T> { Ready(T), Pending }
+impl<T> Poll<T> {
+    pub fn is_pending(&self) -> (r: bool)
+        ensures r == (*self is Pending),
+    {
+        match self { Poll::Pending => true, Poll::Ready(_) => false }
+    }
+}
+impl<T> Arc<T> {
     #[verifier::external_body]
-    pub fn lock(&self) -> (r: Result<MutexGuard<T>, PoisonError<MutexGuard<T>>>)
-        ensures r is Ok,
+    pub fn new(t: T) -> (r: Arc<T>)
     { unimplemented!() }
 }
-impl<T> MutexGuard<Slab<T>> {
-    // The executor's task slab is not part of the fixpoint claim; only its key range matters
-    // here. ASSUMED: fewer than 2^32 tasks are alive (the code panics explicitly otherwise).
+impl<'a> Context<'a> {
     #[verifier::external_body]
-    pub fn insert(&mut self, val: T) -> (key: usize)
-        ensures key <= u32::MAX,
+    pub fn from_waker(waker: &'a Waker) -> (r: Context<'a>)
+    { unimplemented!() }
+    #[verifier::external_body]
+    pub fn waker(&self) -> (r: &Waker)
+    { unimplemented!() }
+}
+impl BoxFuture {
+    #[verifier::external_body]
+    pub fn as_mut(&mut self) -> (r: PinMutFuture<'_>)
+    { unimplemented!() }
+}
+impl<'a> PinMutFuture<'a> {
+    // ASSUMED (havoc): polling a task's future runs user code. It may spawn, wake, emit - never
+    // remove an emitted event or effect, never touch the model lock, never reach into the
+    // executor's slab (which the polling thread owns exclusively while sequential).
+    #[verifier::external_body]
+    pub fn poll(self, Tracked(w): Tracked<&mut World>, cx: &mut Context<'_>) -> (r: Poll<()>)
+        requires
+            !old(w).model_locked, // tasks never run while the model is write-locked (C03)
+        ensures
+            core_havoc(*old(w), *final(w)),
+            cmd_part_eq(*old(w), *final(w)),
+    { unimplemented!() }
+}
+impl<T> Clone for Sender<T> {
+    #[verifier::external_body]
+    fn clone(&self) -> (r: Self)
+        ensures r.role() == self.role(),
     { unimplemented!() }
 }
 
@@ -230,61 +317,89 @@ impl<T> MutexGuard<Slab<T>> {
 //@end
 //@extract id=exec.RunTask file=crux_core/src/capability/executor.rs item="enum RunTask"
 //@end
+//@extract id=exec.TaskWaker file=crux_core/src/capability/executor.rs item="struct TaskWaker"
+//@end
 //@extract id=exec.QueuingExecutor file=crux_core/src/capability/executor.rs item="struct QueuingExecutor"
 //@rule X2.vis 1 s/pub\(crate\) struct/pub struct/
 //@end
+
+// `Arc::new(TaskWaker{..}).into()`: std's `impl<W: Wake> From<Arc<W>> for Waker` (opaque)
+impl From<Arc<TaskWaker>> for Waker {
+    #[verifier::external_body]
+    fn from(a: Arc<TaskWaker>) -> (r: Waker)
+    { unimplemented!() }
+}
 
 impl QueuingExecutor {
     /// the three channel ends are the executor's own queues (established by executor_and_spawner)
     pub closed spec fn wf(&self) -> bool {
         self.spawn_queue.role() is Spawn && self.ready_queue.role() is Ready && self.ready_sender.role() is Ready
     }
+    /// no slot is empty: a slot is emptied only while its task is being polled, so between calls
+    /// this is exactly "no other thread is polling a task" (the sequential reading; C08 is not claimed)
+    pub closed spec fn idle(&self) -> bool {
+        forall|k: usize| #[trigger] self.tasks.inner@.dom().contains(k) ==> self.tasks.inner@[k] is Some
+    }
+    pub closed spec fn slots(&self) -> Map<usize, Option<BoxFuture>> { self.tasks.inner@ }
 
-    // ASSUMED (havoc): polling one task runs user code. It may spawn, wake, emit - never remove
-    // an emitted event or effect, never touch the model lock. Missing: nothing happened.
-    // Unavailable: the slot is being polled by another thread - impossible when sequential.
-    #[verifier::external_body]
-    fn run_task(&self, Tracked(w): Tracked<&mut World>, task_id: TaskId) -> (r: RunTask)
+//@extract id=QueuingExecutor::run_task file=crux_core/src/capability/executor.rs within="impl QueuingExecutor" item="fn run_task" props=C01+C13
+//@expect fn run_task(&self, task_id: TaskId) -> RunTask
+//@sig fn run_task(&mut self, Tracked(w): Tracked<&mut World>, task_id: TaskId) -> (r: RunTask)
+//@contract
         requires
-            !old(w).model_locked, // tasks never run while the model is write-locked (C03)
+            old(self).wf(),
+            !old(w).model_locked,
         ensures
-            r is Missing ==> *final(w) == *old(w),
-            r is Unavailable ==> !old(w).sequential && *final(w) == *old(w),
-            core_havoc(*old(w), *final(w)),
+            final(self).wf(),
+            r is Missing <==> !old(self).slots().dom().contains(task_id.0 as usize), // [C01/executor-run_task/missing-iff-the-slot-is-vacant]
+            r is Unavailable <==> old(self).slots().dom().contains(task_id.0 as usize) && old(self).slots()[task_id.0 as usize] is None, // [C01/executor-run_task/unavailable-iff-the-slot-is-being-polled]
+            (r is Missing || r is Unavailable) ==> *final(w) == *old(w) && final(self).slots() == old(self).slots(), // [C01/executor-run_task/nothing-happens-when-there-is-nothing-to-run]
+            r is Completed ==> final(self).slots() =~= old(self).slots().remove(task_id.0 as usize), // [C13/executor-run_task/a-completed-task-frees-its-slot-and-no-other]
+            r is Suspended ==> final(self).slots().dom() =~= old(self).slots().dom() && final(self).slots()[task_id.0 as usize] is Some, // [C01+C13/executor-run_task/a-pending-task-is-put-back-in-its-own-slot]
+            forall|k: usize| #![auto] k != task_id.0 as usize && old(self).slots().dom().contains(k) ==> final(self).slots().dom().contains(k) && final(self).slots()[k] == old(self).slots()[k], // [C01+C13/executor-run_task/no-other-task-touched]
+            core_havoc(*old(w), *final(w)), // [C01+C03/executor-run_task/emitted-events-and-effects-only-appended]
             cmd_part_eq(*old(w), *final(w)),
-    { unimplemented!() }
+//@rule X4.lock-erasure 3 s/self\s*\.tasks\s*\.lock\(\)\s*\.(?:expect\("[^"]*"\)|unwrap\(\))/(&mut self.tasks.inner)/
+//@rule X4.guard-drop * s#\bdrop\(lock\);#{ } /* drop(lock): after X4 the guard is a plain exclusive borrow whose scope ends here */#
+//@rule X7.deref-TaskId * s/\*task_id\b/task_id.0/
+//@rule X6.world * s/\.poll\(/.poll(Tracked(w), /
+//@end
 
 //@extract id=QueuingExecutor::run_all file=crux_core/src/capability/executor.rs within="impl QueuingExecutor" item="fn run_all" props=C01+C03
 //@expect pub fn run_all(&self)
-//@sig pub fn run_all(&self, Tracked(w): Tracked<&mut World>)
+//@sig pub fn run_all(&mut self, Tracked(w): Tracked<&mut World>)
 //@attr #[verifier::exec_allows_no_decreases_clause]
 //@contract
         requires
-            self.wf(),
+            old(self).wf(),
+            old(self).idle(),
             !old(w).model_locked, // [C03/run_all/callers-must-have-released-the-model]
         ensures
-            final(w).sequential ==> final(w).spawn == 0 && final(w).ready == 0, // [C01/run_all/no-runnable-work-left-behind]
+            final(self).wf(),
+            final(self).idle(),
+            final(w).spawn == 0 && final(w).ready == 0, // [C01/run_all/no-runnable-work-left-behind]
             core_havoc(*old(w), *final(w)), // [C01+C03/run_all/emitted-events-and-effects-only-appended]
             cmd_part_eq(*old(w), *final(w)),
+//@rule X4.lock-erasure 1 s/self\s*\.tasks\s*\.lock\(\)\s*\.(?:expect\("[^"]*"\)|unwrap\(\))/(&mut self.tasks.inner)/
 //@rule X6.world * s/\.try_recv\(\)/.try_recv(Tracked(w))/
 //@rule X6.world * s/self\.run_task\(/self.run_task(Tracked(w), /
 //@rule X6.world * s/\.send\(/.send(Tracked(w), /
 //@loops 3
 //@loop 1
             invariant
-                self.wf(), !w.model_locked,
-                !did_some_work && w.sequential ==> w.spawn == 0 && w.ready == 0, // [C01/run_all/outer-loop-exits-only-when-both-queues-are-empty]
+                self.wf(), self.idle(), !w.model_locked,
+                !did_some_work ==> w.spawn == 0 && w.ready == 0, // [C01/run_all/outer-loop-exits-only-when-both-queues-are-empty]
                 core_havoc(*old(w), *w), cmd_part_eq(*old(w), *w),
 //@loop 2
                 invariant
-                    self.wf(), !w.model_locked,
+                    self.wf(), self.idle(), !w.model_locked,
                     core_havoc(*old(w), *w), cmd_part_eq(*old(w), *w),
                 ensures
                     w.spawn == 0, // [C01/run_all/spawn-queue-drained]
 //@loop 3
                 invariant
-                    self.wf(), !w.model_locked,
-                    !did_some_work && w.sequential ==> w.spawn == 0, // [C01/run_all/work-done-by-a-ready-task-forces-another-pass]
+                    self.wf(), self.idle(), !w.model_locked,
+                    !did_some_work ==> w.spawn == 0, // [C01/run_all/work-done-by-a-ready-task-forces-another-pass]
                     core_havoc(*old(w), *w), cmd_part_eq(*old(w), *w),
                 ensures
                     w.ready == 0, // [C01/run_all/ready-queue-drained]
@@ -474,7 +589,6 @@ pub mod core_m {
                 old(w).events.is_prefix_of(final(w).events),
                 old(w).effects.is_prefix_of(final(w).effects),
                 final(w).model_locked == old(w).model_locked,
-                final(w).sequential == old(w).sequential,
                 (old(w).applied.push(val_id(event)) + old(w).events).is_prefix_of(event_log(*final(w))), // consequence of the lines on applied/events (lemma_update_log)
                 cmd_part_eq(*old(w), *final(w)),
         ;
@@ -492,22 +606,24 @@ pub mod core_m {
         pub closed spec fn wf(&self) -> bool {
             self.requests.inner.role() is Effects && self.capability_events.inner.role() is Events && self.executor.wf()
         }
+        /// between calls no task is being polled (sequential reading; see QueuingExecutor::idle)
+        pub closed spec fn idle(&self) -> bool { self.executor.idle() }
 
 //@extract id=Core::process_event file=crux_core/src/core/mod.rs within="impl<A> Core<A>" item="fn process_event" props=C01+C03
 //@expect pub fn process_event(&self, event: A::Event) -> Vec<A::Effect>
-//@sig pub fn process_event(&self, Tracked(w): Tracked<&mut World>, event: A::Event) -> (r: Vec<A::Effect>)
+//@sig pub fn process_event(&mut self, Tracked(w): Tracked<&mut World>, event: A::Event) -> (r: Vec<A::Effect>)
 //@contract
             requires
-                self.wf(),
+                old(self).wf(), old(self).idle(),
                 !old(w).model_locked,
             ensures
-                final(w).sequential ==> final(w).spawn == 0 && final(w).ready == 0, // [C01/process_event/no-runnable-work-left-behind]
+                final(w).spawn == 0 && final(w).ready == 0, // [C01/process_event/no-runnable-work-left-behind]
                 final(w).events.len() == 0, // [C01+C03/process_event/every-internally-emitted-event-has-been-applied]
                 final(w).effects.len() == 0, // [C01/process_event/no-effect-deferred-to-a-later-call]
                 old(w).effects.is_prefix_of(channel::ids(r@)), // [C01/process_event/effects-handed-over-exactly-once-in-order]
                 (old(w).applied.push(val_id(event)) + old(w).events).is_prefix_of(final(w).applied), // [C03/process_event/the-shells-event-then-every-queued-event-applied-exactly-once-in-order]
                 !final(w).model_locked, // [C03/process_event/model-released]
-                final(w).sequential == old(w).sequential, cmd_part_eq(*old(w), *final(w)),
+                cmd_part_eq(*old(w), *final(w)),
 //@rule X6.world * s/\.write\(\)/.write(Tracked(w))/
 //@rule X6.world * s/\.update\(/.update(Tracked(w), /
 //@rule X6.world * s/\.spawn\(/.spawn(Tracked(w), /
@@ -517,19 +633,19 @@ pub mod core_m {
 
 //@extract id=Core::resolve file=crux_core/src/core/mod.rs within="impl<A> Core<A>" item="fn resolve" props=C01+C02+C03
 //@expect pub fn resolve<Op>( &self, request: &mut Request<Op>, result: Op::Output, ) -> Result<Vec<A::Effect>, ResolveError> where Op: Operation, // ANCHOR_END: resolve_sig
-//@sig pub fn resolve<Op>(&self, Tracked(w): Tracked<&mut World>, request: &mut Request<Op>, result: Op::Output) -> (r: Result<Vec<A::Effect>, ResolveError>) where Op: Operation,
+//@sig pub fn resolve<Op>(&mut self, Tracked(w): Tracked<&mut World>, request: &mut Request<Op>, result: Op::Output) -> (r: Result<Vec<A::Effect>, ResolveError>) where Op: Operation,
 //@contract
             requires
-                self.wf(),
+                old(self).wf(), old(self).idle(),
                 !old(w).model_locked,
             ensures
                 r is Err ==> *final(w) == *old(w), // [C01+C02/resolve/a-rejected-resolution-is-returned-as-an-error-and-has-no-effect]
-                r is Ok ==> (final(w).sequential ==> final(w).spawn == 0 && final(w).ready == 0), // [C01/resolve/no-runnable-work-left-behind]
+                r is Ok ==> final(w).spawn == 0 && final(w).ready == 0, // [C01/resolve/no-runnable-work-left-behind]
                 r is Ok ==> final(w).events.len() == 0 && final(w).effects.len() == 0, // [C01/resolve/nothing-deferred-to-a-later-call]
                 r is Ok ==> old(w).effects.is_prefix_of(channel::ids(r->Ok_0@)), // [C01/resolve/effects-handed-over-exactly-once-in-order]
                 r is Ok ==> event_log(*old(w)).is_prefix_of(final(w).applied), // [C03/resolve/emitted-events-applied-exactly-once-in-order]
                 !final(w).model_locked,
-                final(w).sequential == old(w).sequential, cmd_part_eq(*old(w), *final(w)),
+                cmd_part_eq(*old(w), *final(w)),
 //@rule X6.world * s/request\.resolve\(/request.resolve(Tracked(w), /
 //@rule X6.world * s/self\.process\(\)/self.process(Tracked(w))/
 //@rule X9.debug-assert * s#debug_assert!\(([^;]*)\);#assert(\1); // [C02/resolve/debug-assertion-cannot-fire]#
@@ -537,20 +653,20 @@ pub mod core_m {
 
 //@extract id=Core::process file=crux_core/src/core/mod.rs within="impl<A> Core<A>" item="fn process" props=C01+C03
 //@expect pub(crate) fn process(&self) -> Vec<A::Effect>
-//@sig pub fn process(&self, Tracked(w): Tracked<&mut World>) -> (r: Vec<A::Effect>)
+//@sig pub fn process(&mut self, Tracked(w): Tracked<&mut World>) -> (r: Vec<A::Effect>)
 //@attr #[verifier::exec_allows_no_decreases_clause]
 //@contract
             requires
-                self.wf(),
+                old(self).wf(), old(self).idle(),
                 !old(w).model_locked,
             ensures
-                final(w).sequential ==> final(w).spawn == 0 && final(w).ready == 0, // [C01/process/no-runnable-work-left-behind]
+                final(w).spawn == 0 && final(w).ready == 0, // [C01/process/no-runnable-work-left-behind]
                 final(w).events.len() == 0, // [C01+C03/process/every-internally-emitted-event-has-been-applied]
                 final(w).effects.len() == 0, // [C01/process/no-effect-deferred-to-a-later-call]
                 old(w).effects.is_prefix_of(channel::ids(r@)), // [C01/process/effects-handed-over-exactly-once-in-order]
                 event_log(*old(w)).is_prefix_of(final(w).applied), // [C03/process/queued-events-applied-exactly-once-in-FIFO-order]
                 !final(w).model_locked, // [C03/process/model-released]
-                final(w).sequential == old(w).sequential, cmd_part_eq(*old(w), *final(w)),
+                cmd_part_eq(*old(w), *final(w)),
 //@rule X6.world * s/\.run_all\(\)/.run_all(Tracked(w))/
 //@rule X6.world * s/\.receive\(\)/.receive(Tracked(w))/
 //@rule X6.world * s/\.write\(\)/.write(Tracked(w))/
@@ -561,12 +677,12 @@ pub mod core_m {
 //@loops 1
 //@loop 1
                 invariant
-                    self.wf(),
+                    self.wf(), self.idle(),
                     !w.model_locked, // [C03/process/loop/model-released-before-tasks-run-and-before-the-next-event]
-                    w.sequential ==> w.spawn == 0 && w.ready == 0, // [C01/process/loop/tasks-made-runnable-by-an-update-have-run-before-the-next-event]
+                    w.spawn == 0 && w.ready == 0, // [C01/process/loop/tasks-made-runnable-by-an-update-have-run-before-the-next-event]
                     old(w).effects.is_prefix_of(w.effects), // [C01/process/loop/no-effect-removed-before-the-drain]
                     event_log(*old(w)).is_prefix_of(event_log(*w)), // [C03/process/loop/one-update-per-dequeued-event-none-lost-or-reordered]
-                    w.sequential == old(w).sequential, cmd_part_eq(*old(w), *w),
+                    cmd_part_eq(*old(w), *w),
                 ensures
                     w.events.len() == 0,
 //@end
@@ -577,53 +693,12 @@ pub mod core_m {
 pub mod command_m {
     use super::*;
 
-    // ---- assumed: slab 0.4.9 as a partial map (same contracts as unit R)
-    #[verifier::external_body]
-    #[verifier::accept_recursive_types(T)]
-    pub struct Slab<T> { _p: core::marker::PhantomData<T> }
-    impl<T> View for Slab<T> {
-        type V = Map<usize, T>;
-        uninterp spec fn view(&self) -> Map<usize, T>;
-    }
-    impl<T> Slab<T> {
-        #[verifier::external_body]
-        pub fn insert(&mut self, val: T) -> (key: usize)
-            ensures
-                !old(self)@.dom().contains(key),
-                final(self)@ == old(self)@.insert(key, val),
-        { unimplemented!() }
-        #[verifier::external_body]
-        pub fn remove(&mut self, key: usize) -> (val: T)
-            requires old(self)@.dom().contains(key), // slab panics with "invalid key" otherwise
-            ensures
-                final(self)@ == old(self)@.remove(key),
-                val == old(self)@[key],
-        { unimplemented!() }
-        #[verifier::external_body]
-        pub fn clear(&mut self)
-            ensures final(self)@ == Map::<usize, T>::empty(),
-        { unimplemented!() }
-        #[verifier::external_body]
-        pub fn is_empty(&self) -> (r: bool)
-            ensures r <==> self@.dom() =~= Set::<usize>::empty(),
-        { unimplemented!() }
-    }
-
-    // ---- X5: opaque std / futures types
-    #[verifier::external_body]
-    pub struct Waker { _p: u8 }
+    // ---- X5: opaque std / futures types used only by the command
     #[verifier::external_body]
     pub struct AtomicWaker { _p: u8 }
     #[verifier::external_body]
     pub struct AtomicBool { _p: u8 }
-    #[verifier::external_body]
-    pub struct Context { _p: u8 }
-    #[verifier::external_body]
-    #[verifier::accept_recursive_types(T)]
-    pub struct Arc<T> { _p: core::marker::PhantomData<T> }
     pub enum Ordering { Relaxed, Release, Acquire, AcqRel, SeqCst }
-    /// std::task::Poll
-    pub enum Poll<T> { Ready(T), Pending }
 
     /// whose flag an Arc<AtomicBool> is
     pub enum Flag { CommandAborted, Other }
@@ -646,11 +721,6 @@ pub mod command_m {
     impl Arc<AtomicWaker> {
         #[verifier::external_body]
         pub fn register(&self, waker: &Waker)
-        { unimplemented!() }
-    }
-    impl Context {
-        #[verifier::external_body]
-        pub fn waker(&self) -> (r: &Waker)
         { unimplemented!() }
     }
 
@@ -685,10 +755,8 @@ pub mod command_m {
                 *final(w) == (World { c_ready: final(w).c_ready, ..*old(w) }),
         { unimplemented!() }
     }
-    /// `drop(task)`: std::mem::drop (the task's future and everything it captured are dropped here)
-    #[verifier::external_body]
-    pub fn drop<T>(t: T)
-    { unimplemented!() }
+    // `drop(task)` is the top-level std::mem::drop model: the task's future and everything it
+    // captured are dropped there
 
     /// no task still held by the command has been reported finished or cancelled (C13); the held
     /// tasks are pairwise different tasks, all of which entered through the spawn queue (or new())
